@@ -9,10 +9,15 @@ Property theorems only (lemmas: `Lemmas/EqlCover.lean`, `Lemmas/EqlCount.lean`).
 Fragment `SExpr.F2`: `and_`, `or_` only between conditions with the same variables, `not_` only on atoms;
 atoms are comparisons, membership, `HasType` and attribute/index chains used as conditions, over
 variables, literals and attribute/index chains (no `flatten`, no quantifiers).
-Side conditions: every domain value is truthy (`DomTruthy`; its negation is exactly the trigger of
-F-C02-1 = F-C01-3), domains are duplicate-free, literal nodes have distinct ids (`LitNodup`), the selection
+Side conditions: domains are duplicate-free, literal nodes have distinct ids (`LitNodup`), the selection
 consists of plain variables that occur in the condition (`selOK`).
 Both sides are assumed to return `.ok` (no well-typedness development).
+
+Until fix commit `78cb732` every theorem here also assumed `DomTruthy w` (every domain value truthy): a BOUND
+variable with a falsy value (`0`, `False`, `[]`, `None`) was reported false, so a comparison using it as an operand
+dropped the row (F-C02-1 = F-C01-3). The repaired engine flags a bound variable with its truthiness only where the
+variable itself is a condition (`boundFlag`); the hypothesis is gone and `C02_falsyBound_repaired` states the
+former counter-example positively.
 -/
 namespace KrroodVerif.Eql
 
@@ -21,7 +26,7 @@ the rows of `evalQuery` are a permutation of the rows of the specification (mult
 the query, the domains and the objects. -/
 theorem C02_multiplicity (w : World) (q : SQuery) (c : SExpr)
     (hc : q.cond = some c) (hF : c.F2 = true) (hsel : selOK q.sel c = true)
-    (hdt : DomTruthy w) (hnd : ∀ v, (w.dom v).Nodup) (hlit : LitNodup (build c))
+    (hnd : ∀ v, (w.dom v).Nodup) (hlit : LitNodup (build c))
     {rows rows' : List (List Val)}
     (h1 : evalQuery w q.toQuery = .ok rows) (h2 : solutions w q = .ok rows') :
     rows.Perm rows' := by
@@ -32,14 +37,14 @@ theorem C02_multiplicity (w : World) (q : SQuery) (c : SExpr)
   have hocc : ∀ v ∈ sel.flatMap Term.vars, v ∈ c.freeVars := fun v hv => by simpa using hsel.2 v hv
   simp only [SQuery.toQuery, Option.map] at h1
   rw [hs] at h1 h2
-  exact multiplicity_core w _ c hF hocc hdt hnd hlit h1 h2
+  exact multiplicity_core w _ c hF hocc hnd hlit h1 h2
 
 /-- **C02_the.** Under the same hypotheses `the(q)` sees the true number of solutions: the value `s` iff the
 specification has exactly the solution `s`, `NoSolutionFound` iff it has none, `MultipleSolutionFound` iff it
 has several (`Quant.theRun` is C09's model of `the`, `Quant.theSpec` its specification). -/
 theorem C02_the (w : World) (q : SQuery) (c : SExpr)
     (hc : q.cond = some c) (hF : c.F2 = true) (hsel : selOK q.sel c = true)
-    (hdt : DomTruthy w) (hnd : ∀ v, (w.dom v).Nodup) (hlit : LitNodup (build c))
+    (hnd : ∀ v, (w.dom v).Nodup) (hlit : LitNodup (build c))
     {rows rows' : List (List Val)}
     (h1 : evalQuery w q.toQuery = .ok rows) (h2 : solutions w q = .ok rows') :
     rows.length = rows'.length ∧
@@ -47,7 +52,7 @@ theorem C02_the (w : World) (q : SQuery) (c : SExpr)
     (Quant.theSpec rows = .noSolution ↔ rows' = []) ∧
     (∀ s, Quant.theSpec rows = .value s ↔ rows' = [s]) ∧
     (Quant.theSpec rows = .multipleSolutions ↔ 2 ≤ rows'.length) := by
-  have hp := C02_multiplicity w q c hc hF hsel hdt hnd hlit h1 h2
+  have hp := C02_multiplicity w q c hc hF hsel hnd hlit h1 h2
   refine ⟨hp.length_eq, Quant.C09_the rows, ?_⟩
   match rows, hp with
   | [], hp =>
@@ -64,20 +69,38 @@ theorem C02_the (w : World) (q : SQuery) (c : SExpr)
     · intro s; simp only [Quant.theSpec, reduceCtorEq, false_iff]; intro h; rw [h] at hl; simp at hl
     · simp only [Quant.theSpec, true_iff]; omega
 
-/-! ### Counter-example (test, by `decide` on the witness of F-C02-1 = F-C01-3 in `findings.d/C02.json`) -/
+/-! ### The former counter-example (test, by `decide` on the witness of F-C02-1 = F-C01-3 in `findings.d/C02.json`;
+the finding is `fixed:` by commit `78cb732`) -/
 
 def cexFalsyW : World := { objs := [], doms := [(0, [.int 0, .int 1, .int 2, .int 3])] }
 def cexFalsyQ : SQuery :=
   ⟨[.var 0], some (.and (.cmp .ge (.var 0) (.lit 101 (.int 0))) (.cmp .lt (.var 0) (.lit 102 (.int 2))))⟩
 
-/-- **C02_cex_falsyBound** (test). `and_(x >= 0, x < 2)` over `[0,1,2,3]`: the query is in `F2` and meets every
-side condition except `DomTruthy`; one row for two satisfying assignments (the bound value `0` reads as false). -/
+/-- **C02_cex_falsyBound** (test; the witness of the REPAIRED finding F-C02-1 = F-C01-3, name kept).
+`and_(x >= 0, x < 2)` over `[0,1,2,3]`. The defect: the second comparison met `x` already bound, a bound variable was
+flagged `is_false = not bool(value)` wherever it stood, the comparator filters its operand results by that flag, so
+`x = 0` was dropped — the engine (and this model, until the port) returned `[[1]]`: one row for two satisfying
+assignments. Fix commit `78cb732` flags a bound variable with its truthiness only where the variable itself is a
+condition; the model follows (`boundFlag`), and on the same witness evaluation now EQUALS the specification. The query
+is in `F2` and meets every hypothesis of `C02_multiplicity` although the domain contains a falsy value
+(`domTruthyB … = false`): the hypothesis `DomTruthy` that used to exclude it is no longer needed. -/
 theorem C02_cex_falsyBound :
-    evalQuery cexFalsyW cexFalsyQ.toQuery = .ok [[.int 1]] ∧
+    evalQuery cexFalsyW cexFalsyQ.toQuery = .ok [[.int 0], [.int 1]] ∧
     solutions cexFalsyW cexFalsyQ = .ok [[.int 0], [.int 1]] ∧
+    evalQuery cexFalsyW cexFalsyQ.toQuery = solutions cexFalsyW cexFalsyQ ∧
     (∃ c, cexFalsyQ.cond = some c ∧ c.F2 = true ∧ selOK cexFalsyQ.sel c = true ∧ LitNodup (build c)) ∧
     domsNodupB cexFalsyW = true ∧ domTruthyB cexFalsyW = false := by
-  refine ⟨by decide, by decide, ⟨_, rfl, by decide, by decide, by decide⟩, by decide, by decide⟩
+  refine ⟨by decide, by decide, by decide, ⟨_, rfl, by decide, by decide, by decide⟩, by decide, by decide⟩
+
+/-- non-vacuity on falsy values (test): `C02_multiplicity` and `C02_the` now APPLY to the former witness (domain
+`[0,1,2,3]`, the value `0` is falsy) -/
+example : [[Val.int 0], [.int 1]].Perm [[Val.int 0], [.int 1]] ∧
+    Quant.theSpec [[Val.int 0], [.int 1]] = .multipleSolutions :=
+  ⟨C02_multiplicity cexFalsyW cexFalsyQ _ rfl (by decide) (by decide) (domsNodup_of_B (by decide)) (by decide)
+      (by decide) (by decide),
+   ((C02_the cexFalsyW cexFalsyQ _ rfl (by decide) (by decide) (domsNodup_of_B (by decide)) (by decide)
+      (rows := [[Val.int 0], [.int 1]]) (rows' := [[Val.int 0], [.int 1]]) (by decide) (by decide)).2.2.2.2).mpr
+      (by decide)⟩
 
 /-! ### Non-vacuity (test): a 3-object world and an `F2` query with a non-empty, non-total answer that meets
 every hypothesis of `C02_multiplicity` / `C02_the` -/
@@ -91,12 +114,12 @@ def c02nvC : SExpr :=
 def c02nvQ : SQuery := ⟨[.var 0, .var 1], some c02nvC⟩
 
 example :
-    c02nvQ.cond = some c02nvC ∧ c02nvC.F2 = true ∧ selOK c02nvQ.sel c02nvC = true ∧ DomTruthy c02nvW ∧
+    c02nvQ.cond = some c02nvC ∧ c02nvC.F2 = true ∧ selOK c02nvQ.sel c02nvC = true ∧
     (∀ v, (c02nvW.dom v).Nodup) ∧ LitNodup (build c02nvC) ∧
     evalQuery c02nvW c02nvQ.toQuery = .ok [[.obj 0, .obj 0], [.obj 0, .obj 1], [.obj 1, .obj 1]] ∧
     solutions c02nvW c02nvQ = .ok [[.obj 0, .obj 0], [.obj 0, .obj 1], [.obj 1, .obj 1]] ∧
     (assignments c02nvW c02nvQ.vars).length = 9 :=
-  ⟨rfl, by decide, by decide, domTruthy_of_B (by decide), domsNodup_of_B (by decide), by decide,
+  ⟨rfl, by decide, by decide, domsNodup_of_B (by decide), by decide,
     by decide, by decide, by decide⟩
 
 /-! ### Partially ordered values (test): on `frozenset`s the negation of an ordering comparison is NOT the "inverse"
